@@ -145,6 +145,36 @@ def crash_symptom(stage):
     return "crash_or_hang_when_used_after_fault"
 
 
+FAMILIES = [
+    ("solve", r"^(solve|is_satisfiable|optimizing|evaluate_objective|set_objective|add_to_integer|print_solution)"),
+    ("widening", r"(widening|extrapolation|narrowing|collapse)"),
+    ("integer", r"^(drop_some|wrap_assign|contains_integer_point|integer_upper_bound)"),
+    ("affine", r"^(affine_|generalized_affine|bounded_affine|unconstrain)"),
+    ("dimensions", r"^(add_space|remove_|map_space|expand_|fold_|concatenate|set_space_dimension|shift_|swap_space|permute|resize|add_zero|reserve)"),
+    ("lattice", r"^(intersection|upper_bound|poly_hull|poly_difference|difference|time_elapse|positive_time_elapse|simplify_using_context|omega_reduce|"
+                r"pairwise_reduce|add_disjunct|linear_partition|approximate_partition|NNC_poly_difference|topological_closure)"),
+    ("add_refine", r"^(add_|refine_|set_interval|propagate|insert|reset|set_coefficient|linear_combine|normalize|plus|minus|times|neg_|sub_mul|"
+                   r"erase|increase_keys|clear|delete_and|binary_|grow_)"),
+    ("construct_copy_assign", r"^(ctor|copy|assign|m_swap|ascii_|total_memory|C_from|.*_build$|set_representation)"),
+]
+
+
+def family(scenario):
+    """operation family of a scenario `<Domain>.<operation>` (everything else: a const observer)"""
+    if scenario.startswith("micro."):
+        return "protocol"
+    op = scenario.split(".", 1)[1] if "." in scenario else scenario
+    for fam, rx in FAMILIES:
+        if re.search(rx, op):
+            return fam
+    return "observer"
+
+
+def where(fn, scenario):
+    """site of a damage / crash finding: class of the interrupted function @ operation family of the scenario"""
+    return "%s@%s" % (component(fn), family(scenario))
+
+
 def component(fn):
     """class of the interrupted function: findings about damage / crashes are grouped per (class, symptom); leaks are not"""
     return fn.rsplit("::", 1)[0] if "::" in fn else fn
@@ -174,7 +204,7 @@ def classify_fault(tok, line, thrower_of_crash=None):
         if kv.get("k") == "-1":
             out.append(Finding("unfaulted:" + name, ["crash_without_fault", sig], "crashes without any fault injected (%s in %s)" % (sig, stage), line))
         else:
-            out.append(Finding(component(fn), [crash_symptom(stage), "in_" + fn, "crash_%s_%s" % (stage, sig), "%s_fault" % kind, "crash_" + stage, sig, "domain_" + dom],
+            out.append(Finding(where(fn, name), [crash_symptom(stage), "in_" + fn, "op_" + name, "crash_%s_%s" % (stage, sig), "%s_fault" % kind, "crash_" + stage, sig, "domain_" + dom],
                                "%s at %s after a fault inside %s" % (sig, stage, fn), line))
         return out
     thrower = kv.get("thrower", "")
@@ -201,14 +231,15 @@ def classify_fault(tok, line, thrower_of_crash=None):
         for (site, pred), ex in roots.items():
             out.append(Finding(site, [pred, "%s_fault" % kind], "leak (%d operator-new blocks, %d GMP blocks) e.g. allocated at %s" % (ln, lg, ex[:160]), line))
     if int(kv.get("bad_free", 0)) + int(kv.get("bad_origin", 0)) > 0:
-        out.append(Finding(component(fn), ["destination_released_before_new_limbs_are_allocated" if fn == "gmp:mpz_mul" else "double_free_or_unknown_block", "in_" + fn, "%s_fault" % kind],
+        out.append(Finding(fn if fn == "gmp:mpz_mul" else where(fn, name),
+                           ["destination_released_before_new_limbs_are_allocated" if fn == "gmp:mpz_mul" else "double_free_or_unknown_block", "in_" + fn, "op_" + name, "%s_fault" % kind],
                            "free of a block that is not live after a fault inside " + fn, line))
     for t in tok:
         if t.startswith("!"):
             if fn == "gmp:mpz_mul":
                 out.append(Finding(fn, ["destination_released_before_new_limbs_are_allocated", t[1:]], "damage after a failing allocation inside mpz_mul", line))
                 continue
-            out.append(Finding(component(fn), [symptom(t[1:]), "in_" + fn, t[1:], "%s_fault" % kind, "domain_" + dom], "%s after a fault inside %s" % (t[1:], fn), line))
+            out.append(Finding(where(fn, name), [symptom(t[1:]), "in_" + fn, "op_" + name, t[1:], "%s_fault" % kind, "domain_" + dom], "%s after a fault inside %s" % (t[1:], fn), line))
     if kv.get("fired") == "1" and kv.get("result") == "completed" and not out:
         pass
     return out
@@ -390,6 +421,11 @@ def run(ctx):
             t = l.split(None, 2)
             if t and t[0] == "ok":
                 stats["machine_runs_matching_model"] += 1
+            elif t and t[0] == "ok-as-written":
+                # agrees with the historical machine only: the repair is not in this tree; the defect is reported
+                # (as a finding of its own) from the fault journal
+                stats["machine_runs_matching_model"] += 1
+                stats["machine_runs_matching_as_written_machine_only"] += 1
             elif t and t[0] == "MISMATCH":
                 src = mk_lines[int(t[1]) - 1]
                 st = src.split()
